@@ -117,6 +117,9 @@ func unquoteString(b []byte) ([]byte, int) {
 			return b, len(b)
 		}
 		if b[i] == '\r' || b[i] == '\n' {
+			if i == 0 {
+				return nil, 0
+			}
 			return b[0:i], i
 		}
 		if b[i] == '"' {
@@ -141,8 +144,18 @@ func unquoteString(b []byte) ([]byte, int) {
 		if err != nil {
 			break
 		}
-		res = append(res, string(ch)...)
+		if ch == utf8.RuneError && len(str)-len(tail) == 1 {
+			// an invalid UTF-8 byte of the input is kept as it is (decoding it to U+FFFD would make the value
+			// longer than the consumed input)
+			res = append(res, str[0])
+		} else {
+			res = append(res, string(ch)...)
+		}
 		str = tail
+	}
+	if len(str) == len(b) {
+		// nothing was consumed (the literal starts with an invalid escape sequence)
+		return nil, 0
 	}
 	return res, len(b) - len(str)
 }
